@@ -189,12 +189,14 @@ C12_SWEEP_BASES = [
 C12_SCALE_BASES = {15, 16, 17, 18, 19}
 # in the scale bases only the sites that read or write the shared caches are swept (the bulk thread is long)
 SCALE_SWEEP_FILES = ("_internal/retort/builtin_mediator.py", "_internal/morphing/facade/retort.py",
-                     "_internal/retort/operating_retort.py", "_internal/retort/searching_retort.py")
+                     "_internal/retort/operating_retort.py", "_internal/retort/searching_retort.py",
+                     "_internal/code_tools/compiler.py")
 
 
 C12_INSTR_SWEEP_BASES = {0, 3, 9}
 C12_QUICK_SITE_SWEEP = [(0, 0), (3, 0), (9, 0), (9, 1), (12, 0), (13, 0),     # (base index, primary thread)
-                        (15, 0), (16, 0), (17, 0), (18, 0), (19, 0), (20, 0), (20, 1)]
+                        (15, 0), (16, 0), (17, 0), (18, 0), (19, 0), (20, 0), (20, 1),
+                        (16, 1), (17, 1)]      # the bulk thread itself stopped once at each cache / compiler site
 
 
 def _sweep_base(bi):
